@@ -120,6 +120,8 @@ ASSUMPTIONS = [
     'qwrite() / qread() are a write and a read like any other: a collection written into a stream behind other records is read back '
     'from where it starts (the pseudo-derivation `qcache`)',
     'a bound method taken from one DB object (old or new spelling) means that object, whatever is looked up on other objects in between',
+    'copy(), reverse() and reverse_copy() give a collection with exactly the keys of their source (swapped for the reversed ones), '
+    'including packages without tags / tags without packages',
     'insert(p, tags) names a package: directly afterwards has_package(p) holds and iter_packages() lists p, with or without tags',
     'a read line with a stray separator ("p: a, , b", "p: , a") carries the EMPTY tag name, a name like any other; as a package '
     'name (after reverse) it meets the known insert defect the same way longer names do (set(("")) is empty)',
@@ -876,6 +878,13 @@ def run_case(ctx, case):
             elif kind in ('reverse', 'reverse_copy'):
                 nxt = spelled(ctx, cur, kind, i)()
                 nmodel = model.reversed()
+                # a (reversed) copy / view has exactly the keys of its source, swapped - also those with empty sets
+                ctx.mon('M.copy-keys')
+                if set(nxt.iter_packages()) != set(cur.iter_tags()) or set(nxt.iter_tags()) != set(cur.iter_packages()):
+                    ctx.violation('reversed-copy-or-view-has-other-keys-than-its-source',
+                                  '%s: source packages %r tags %r; result packages %r tags %r'
+                                  % (kind, sorted(cur.iter_packages()), sorted(cur.iter_tags()), sorted(nxt.iter_packages()), sorted(nxt.iter_tags())),
+                                  prefix(i))
             elif kind == 'qcache':
                 # the quick cache: qwrite() into a stream that may already hold something (another collection, a header
                 # record), qread() from where this collection starts - a read like any other
@@ -900,6 +909,12 @@ def run_case(ctx, case):
             elif kind == 'copy':
                 nxt = cur.copy()
                 nmodel = model.same()
+                ctx.mon('M.copy-keys')
+                if set(nxt.iter_packages()) != set(cur.iter_packages()) or set(nxt.iter_tags()) != set(cur.iter_tags()):
+                    ctx.violation('copy-has-other-keys-than-its-source',
+                                  'copy(): source packages %r tags %r; copy packages %r tags %r'
+                                  % (sorted(cur.iter_packages()), sorted(cur.iter_tags()), sorted(nxt.iter_packages()), sorted(nxt.iter_tags())),
+                                  prefix(i))
             elif kind == 'facet_collection':
                 try:
                     fmap = dict((t, facet_of(DB, t)) for t in sorted(set(model.tmax) | set(cur.iter_tags())))
